@@ -29,6 +29,7 @@ def jobs(tier):
         mk('C02', 'drain/BA', S.drain(('B', 'A')), witnesses=('fifo inversion',)),
         mk('C02', 'fw/fanin', S.forward_chain(3, topo='fanin', second_event=True)),
         mk('C02', 'fw/chain3', S.forward_chain(3, topo='chain', second_event=True)),
+        mk('C02', 'flood_order', S.flood_order()),
     ]
     if tier == 'thorough':
         out += [
